@@ -7,9 +7,10 @@ from hypothesis import strategies as st
 
 from vlib import ref
 
-RC_POOL = ["1", "2", "3", "4", "17", "499", "2000", "2499"]
-HINT_POOL = ["500", "501", "502", "900"]
-FC_POOL = ["901", "902", "903", "950", "999"]
+# the borders of the key ranges come first, so that every slice of a pool contains them
+RC_POOL = ["1", "499", "2000", "2499", "2", "3", "4", "17"]
+HINT_POOL = ["500", "900", "501", "502"]
+FC_POOL = ["901", "999", "902", "903", "950"]
 PKG_POOL = ["1P", "2P", "10P", "123P"]
 REPEATABILITIES = [None, None, "0..1", "1..1", "1..5", "0..10", "2..23", "17..23"]
 
